@@ -238,6 +238,10 @@ class NoReasonFamily(ScenarioFamily):
                           {"mode": "pct", "q": 0.004, "q_op": 0.05}]}
         if self.ex == "threads":
             o["protos"] = ["h1"]
+            # with threads the decision to close an expired connection and the close
+            # itself can lie arbitrarily far apart (pre-emption outside the pool lock):
+            # only the no-expiry form of the rule applies
+            o["expiries"] = [None]
         scn = gen_poolmix(seed, tier, o)
         scn["c09"] = {"mode": "no-reason"}
         return scn
